@@ -204,6 +204,10 @@ func (g *Gen) step(fn *ssa.Function, st *State, in ssa.Instruction) {
 	case *ssa.MakeSlice:
 		l := g.val(st, x.Len)
 		g.safety(st, "makeslice", x.Pos(), fmt.Sprintf("(and (<= 0 %s) (<= %s %s))", l.T, l.T, maxLen))
+		if x.Cap != nil && x.Cap != x.Len {
+			c := g.val(st, x.Cap)
+			g.safety(st, "makeslice.cap", x.Pos(), fmt.Sprintf("(and (<= %s %s) (<= %s %s))", l.T, c.T, c.T, maxLen))
+		}
 		r := g.freshRef(st)
 		g.setHs(st, r, emptyAr)
 		g.regs[x] = Val{Ref: r, Len: l.T, Off: "0", Kind: "slice", Ty: x.Type()}
@@ -276,7 +280,7 @@ func (g *Gen) load(st *State, x *ssa.UnOp, a Val) Val {
 	case a.Kind == "heapfield":
 		return g.heapRead(st, a.Idx, a.T, x.Type())
 	case a.Kind == "globptr" && isMap(x.Type()):
-		return Val{Kind: "globmap", T: strings.TrimPrefix(a.T, "glob_"), Ty: x.Type()}
+		return Val{Kind: "globmap", T: a.T[strings.LastIndex(a.T, ".")+1:], Ty: x.Type()}
 	case a.Kind == "ptr" && a.Cell != nil:
 		v, ok := st.cells[a.Cell]
 		if !ok {
@@ -287,16 +291,7 @@ func (g *Gen) load(st *State, x *ssa.UnOp, a Val) Val {
 		e := fmt.Sprintf("(select %s %s)", g.arr(st, *a.Elem), a.Idx)
 		return g.elemVal(st, e, x.Type())
 	case a.Kind == "globptr":
-		if gv, ok := st.globs[a.T]; ok {
-			return gv
-		}
-		v := g.symFor(x.Type(), a.T, st)
-		if v.Kind == "err" && isErrorType(x.Type()) {
-			// package-level sentinel errors are non-nil (init obligation, DESIGN 3.3)
-			g.assume(st, fmt.Sprintf("(not (= %s 0))", v.T))
-		}
-		st.globs[a.T] = v
-		return v
+		return g.globalVal(st, a.T, x.Type())
 	case a.Kind == "opaque" || a.Kind == "err":
 		if _, isStruct := x.Type().Underlying().(*types.Struct); isStruct && a.T != "" {
 			return Val{Kind: "opaque", T: a.T, Ty: x.Type()} // struct loaded through a pointer keeps the pointer's identity
